@@ -147,6 +147,8 @@ def classify(component, what, case):
     if "null pointer passed as argument" in stderr and "restconf" in entry and \
             ("lydjson_envelope" in fset or ("lydjson_parse_name" in fset and "lyd_parse_json_restconf" in fset)):
         return "F55"
+    if "lyplg_type_store_hex_string" in fset and "heap-buffer-overflow" in stderr and b"\x00" in inp:
+        return "F61"
     if fset & {"ipv4prefix_str2ip", "ipv6prefix_str2ip"} and "null pointer" in stderr:
         store_only = (len(req) > 4 and req[2] == "value" and int(req[4], 16) & 0x2) or (len(req) > 4 and req[2] == "data" and int(req[4], 16) & 0x2000000)
         if store_only:
@@ -192,6 +194,7 @@ def suspect(c):
         t = req.split()
         if t[1] == "un" and re.fullmatch(rb"\s*([+-]\d*|\d+)\.", inp): return "F51"
         if t[1] in ("ipp4", "ipp6") and int(t[2], 16) & 2 and b"/" not in inp and inp.strip(): return "F59"
+        if t[1] in ("hs", "mac", "uuid") and b"\x00" in inp[:-1]: return "F61"
     return None
 
 
@@ -301,7 +304,7 @@ class Api:
             lines.append("%d fuzz leakcheck" % len(lines))
         crashes = []
         t = time.time()
-        replies, _ = proto.run_lines([self.exe], lines, timeout=1200, env=self.env, per_crash=crashes.append)
+        replies, _ = proto.run_lines([self.exe], lines, timeout=600, env=self.env, per_crash=crashes.append)
         self.t_spent += time.time() - t           # (summed over the parallel workers)
         return lines, idx, replies, crashes
 
